@@ -29,8 +29,31 @@ func pathsOf(stmts []ast.Stmt) [][]string {
 			for _, r := range x.Results {
 				add("return " + exprStr(r))
 			}
+			if len(x.Results) == 0 {
+				add("return")
+			}
 			terminated = append(terminated, paths...)
 			return terminated
+		case *ast.BranchStmt:
+			// break / continue end the path through the enclosing loop body (or select case)
+			add(x.Tok.String())
+			terminated = append(terminated, paths...)
+			return terminated
+		case *ast.ForStmt:
+			// a loop is entered once: every path through its body, then on after the loop
+			var np [][]string
+			for _, p := range paths {
+				for _, b := range pathsOf(x.Body.List) {
+					q := append(append([]string{}, p...), "for{")
+					q = append(q, b...)
+					if n := len(q); n > 0 && strings.HasPrefix(q[n-1], "return") {
+						terminated = append(terminated, q)
+						continue
+					}
+					np = append(np, append(q, "}"))
+				}
+			}
+			paths = np
 		case *ast.IfStmt:
 			var np [][]string
 			thenPaths := pathsOf(x.Body.List)
@@ -61,7 +84,7 @@ func pathsOf(stmts []ast.Stmt) [][]string {
 			// paths that ended in a return inside the branch are terminated
 			paths = nil
 			for _, p := range np {
-				if len(p) > 0 && strings.HasPrefix(p[len(p)-1], "return ") {
+				if len(p) > 0 && endsPath(p[len(p)-1]) {
 					terminated = append(terminated, p)
 				} else {
 					paths = append(paths, p)
@@ -88,7 +111,7 @@ func pathsOf(stmts []ast.Stmt) [][]string {
 			}
 			paths = nil
 			for _, p := range np {
-				if len(p) > 0 && strings.HasPrefix(p[len(p)-1], "return ") {
+				if len(p) > 0 && endsPath(p[len(p)-1]) {
 					terminated = append(terminated, p)
 				} else {
 					paths = append(paths, p)
@@ -97,6 +120,10 @@ func pathsOf(stmts []ast.Stmt) [][]string {
 		}
 	}
 	return append(terminated, paths...)
+}
+
+func endsPath(s string) bool {
+	return strings.HasPrefix(s, "return") || s == "break" || s == "continue"
 }
 
 func init() {
@@ -154,6 +181,48 @@ func init() {
 			})
 		}
 		g.p("def handleExecveDefers : List String := %s\n\n", leanStrList(defers))
+		// the reaper goroutine: every path through one iteration of waitLoop's `for { select { ... } }`
+		var wl [][]string
+		if fd := findFunc(parseFile("container/container_init_linux.go"), "containerServer", "waitLoop"); fd != nil && len(fd.Body.List) == 1 {
+			if f, isFor := fd.Body.List[0].(*ast.ForStmt); isFor && f.Cond == nil {
+				wl = pathsOf(f.Body.List)
+			}
+		}
+		if wl == nil {
+			fail("waitLoop is not `for { ... }`")
+		}
+		g.p("def waitLoopPaths : List (List String) := [\n")
+		for i, p := range wl {
+			sep := ","
+			if i == len(wl)-1 {
+				sep = ""
+			}
+			g.p("  %s%s\n", leanStrList(p), sep)
+		}
+		g.p("]\n\n")
+		// capacities of the hand-off channels as newContainerServer makes them
+		caps := map[string]string{}
+		ast.Inspect(parseFile("container/container_init_linux.go"), func(n ast.Node) bool {
+			kv, isKV := n.(*ast.KeyValueExpr)
+			if !isKV {
+				return true
+			}
+			if call, isCall := kv.Value.(*ast.CallExpr); isCall && exprStr(call.Fun) == "make" && len(call.Args) >= 1 {
+				if _, isChan := call.Args[0].(*ast.ChanType); isChan {
+					c := "0"
+					if len(call.Args) == 2 {
+						c = exprStr(call.Args[1])
+					}
+					caps[exprStr(kv.Key)] = c
+				}
+			}
+			return true
+		})
+		var capl []string
+		for _, k := range []string{"waitPid", "waitPidResult", "waitAll", "waitAllDone"} {
+			capl = append(capl, k+"="+caps[k])
+		}
+		g.p("def reaperChanCaps : List String := %s\n\n", leanStrList(capl))
 		// sendLoop of the container: FileToClose closed right after SendMsg, before the error check
 		ok := false
 		if fd := findFunc(parseFile("container/container_init_linux.go"), "containerServer", "sendLoop"); fd != nil {
